@@ -461,6 +461,14 @@ class _PathShim:
             return self._fs.mtime[self._fs._res(p)]
         return _os.path.getmtime(p)
 
+    def getsize(self, p):
+        if self._fs.ismem(p):
+            rp = self._fs._res(p)
+            if rp not in self._fs.files:
+                raise FileNotFoundError(2, "No such file or directory", p)
+            return len(self._fs.files[rp].encode("utf-8"))  # size in bytes, not characters
+        return _os.path.getsize(p)
+
 
 class OsShim:
     """Stands in for the `os` module inside a repo module."""
